@@ -26,12 +26,17 @@ MIN = 60_000_000_000
 NOPAR = "-"
 
 
+# nanoseconds added to every timestamp of the current scenario: real span times are not multiples of 256 ns, so they are
+# not exactly representable as floating-point numbers (scenario key "ns_offset"; the model keeps counting in grid units)
+OFF = [0]
+
+
 def to_ns(m):
-    return T0 + m * MIN
+    return T0 + OFF[0] + m * MIN
 
 
 def from_ns(ns):
-    q, r = divmod(ns - T0, MIN)
+    q, r = divmod(ns - T0 - OFF[0], MIN)
     if r:
         raise ValueError("timestamp %d is not on the minute grid" % ns)
     return q
@@ -274,6 +279,7 @@ def run_once(scn, ri, db, emit, seq_cfg=None):
 
 def run_scenario(scn, db):
     """all runs of a scenario, each in a forked child; returns the logged lines"""
+    OFF[0] = int(scn.get("ns_offset", 0))
     lines = []
     for ri in range(len(scn["runs"])):
         r, w = os.pipe()
